@@ -355,7 +355,7 @@ impl Property for C08 {
         ]
     }
     fn workloads(&self, tier: Tier) -> Vec<(String, u64)> {
-        vec![("real".into(), real_count()), ("generated".into(), tier.pick(700, 60_000)), ("permuted".into(), tier.pick(250, 20_000))]
+        vec![("real".into(), real_count()), ("generated".into(), tier.pick(2000, 60_000)), ("permuted".into(), tier.pick(750, 20_000))]
     }
     fn required(&self, tier: Tier) -> Vec<(String, u64)> {
         let f = tier.pick(50, 1000);
@@ -544,7 +544,7 @@ impl Property for C09 {
         vec!["net wall areas as reported in props (checked by C08); V must equal the harness's own net envelope volume within its 2-decimal rounding".into()]
     }
     fn workloads(&self, tier: Tier) -> Vec<(String, u64)> {
-        vec![("real".into(), real_count()), ("generated".into(), tier.pick(900, 80_000)), ("corner".into(), tier.pick(150, 5000))]
+        vec![("real".into(), real_count()), ("generated".into(), tier.pick(2700, 80_000)), ("corner".into(), tier.pick(450, 5000))]
     }
     fn required(&self, _tier: Tier) -> Vec<(String, u64)> {
         vec![("with_test".into(), 100), ("without_test".into(), 100), ("zero_volume".into(), 10), ("test_without_wall_area".into(), 5), ("window_without_cons".into(), 30)]
@@ -797,7 +797,7 @@ impl Property for C10 {
         ]
     }
     fn workloads(&self, tier: Tier) -> Vec<(String, u64)> {
-        vec![("real".into(), real_count()), ("generated".into(), 32 * tier.pick(12, 1000)), ("no-window".into(), tier.pick(96, 3200))]
+        vec![("real".into(), real_count()), ("generated".into(), 32 * tier.pick(36, 1000)), ("no-window".into(), tier.pick(300, 3200))]
     }
     fn required(&self, _tier: Tier) -> Vec<(String, u64)> {
         let mut v: Vec<(String, u64)> = ["S", "SE", "E", "NE", "N", "NW", "W", "SW", "Horiz."].iter().map(|c| (format!("class:{}", c), 20)).collect();
@@ -1175,8 +1175,8 @@ impl Property for C11 {
     fn workloads(&self, tier: Tier) -> Vec<(String, u64)> {
         vec![
             ("real".into(), real_count()),
-            ("generated".into(), tier.pick(600, 40_000)),
-            ("scaled".into(), tier.pick(200, 10_000)),
+            ("generated".into(), tier.pick(1800, 40_000)),
+            ("scaled".into(), tier.pick(600, 10_000)),
             ("sweep-tilt".into(), SWEEP_CHUNKS),
             ("sweep-orientation".into(), SWEEP_CHUNKS),
             ("sweep-parser-vs-model".into(), SWEEP_CHUNKS),
